@@ -99,11 +99,21 @@ def inline_new_helpers(prog):
     if known is None:
         return []
     prog.renamed = alias_renamed(prog, known)
+    sigs = known_signatures()
+    for k, f in prog.fns.items():
+        want = sigs.get(k)
+        if want is None or f.get("test"):
+            continue
+        n = f["args"] if isinstance(f["args"], int) else len(f["args"])
+        got = [l["ty"] for l in f["locals"][:n + 1]]
+        if got != want:
+            f["signature_changed"] = "(%s) -> %s, reviewed as (%s) -> %s" % (", ".join(got[1:]), got[0], ", ".join(want[1:]), want[0])
     if os.environ.get("INKALINT_THREAD_ALL", "1") == "1":
         # everywhere, not only in spliced code: `let ok = a && b; if ok {..}` is the nest `if a { if b {..} }`
         for k, f in prog.fns.items():
             if k.startswith("inkayaku_") and not f.get("test"):
                 thread_jumps(f)
+                single_reaching_bools(f)
     new = {k for k, f in prog.fns.items() if k.startswith("inkayaku_") and k not in known and f.get("kind") != "promoted" and "{closure" not in k and not f.get("test")}
     if not new:
         return []
@@ -148,6 +158,7 @@ def inline_new_helpers(prog):
             break
     for k in sorted({c for c, _ in done}):
         thread_jumps(prog.fns[k])
+        single_reaching_bools(prog.fns[k])
     # a helper that is now spliced into every caller is no function of its own any more: inventories (who writes a
     # field, who calls an unchecked lookup, which panic sites are reachable) see its body in the callers only
     still = set()
@@ -266,3 +277,113 @@ def thread_jumps(f, rounds=6):
         if not changed:
             break
     return n_done
+
+
+def _succs(t):
+    k = t["k"]
+    out = []
+    if k in ("goto", "drop", "call", "assert"):
+        if t.get("target") is not None:
+            out.append(t["target"])
+    elif k == "switch":
+        out = [tb for _, tb in t["targets"]] + [t["otherwise"]]
+    if t.get("unwind") is not None and isinstance(t.get("unwind"), int):
+        out.append(t["unwind"])
+    return out
+
+
+def single_reaching_bools(f):
+    """a boolean temporary assigned in several places (`let c = a && b;`, a flag) is read flow-insensitively as
+    "unknown". Where exactly one of its assignments can reach a read (classic reaching definitions), the read is given
+    a fresh local that copies that assignment's value, so that the read resolves to the expression again. Only
+    plain bool locals (no projections written, never borrowed mutably) are treated."""
+    blocks = f["blocks"]
+    nargs = f["args"] if isinstance(f["args"], int) else len(f["args"])
+    defs = {}       # local -> [(block, stmt index)]
+    bad = set()
+    for bi, b in enumerate(blocks):
+        for si, st in enumerate(b["stmts"]):
+            d = st["dst"]
+            if d is not None:
+                if d["p"]:
+                    bad.add(d["l"])
+                else:
+                    defs.setdefault(d["l"], []).append((bi, si))
+            rv = st["rv"]
+            if rv["op"] in ("ref", "addr") and rv.get("mut") and not [e for e in rv["place"]["p"] if e == "deref"]:
+                bad.add(rv["place"]["l"])
+        t = b["term"]
+        if t["k"] == "call" and t.get("dest") is not None:
+            bad.add(t["dest"]["l"])       # a call result: left alone
+    cands = [l for l, ds in defs.items() if len(ds) >= 2 and l not in bad and l > nargs and f["locals"][l]["ty"] == "bool"]
+    if not cands:
+        return 0
+    preds = {i: [] for i in range(len(blocks))}
+    for bi, b in enumerate(blocks):
+        for x in _succs(b["term"]):
+            if 0 <= x < len(blocks):
+                preds[x].append(bi)
+    # reachable blocks only (threading leaves dead joins behind)
+    reach, work = set(), [0]
+    while work:
+        x = work.pop()
+        if x in reach:
+            continue
+        reach.add(x)
+        work.extend(y for y in _succs(blocks[x]["term"]) if 0 <= y < len(blocks))
+    n_new = 0
+    for l in cands:
+        # (re-scan: copies inserted for an earlier local shift statement indices)
+        ds = [(bi, si) for bi, b in enumerate(blocks) for si, st in enumerate(b["stmts"]) if st["dst"] is not None and not st["dst"]["p"] and st["dst"]["l"] == l]
+        # reaching definitions at block entry: IN[b] = union OUT[p]; OUT[b] = last def in b, or IN[b]
+        last_in_block = {}
+        for (bi, si) in ds:
+            last_in_block[bi] = max(si, last_in_block.get(bi, -1))
+        IN = {b: set() for b in reach}
+        changed = True
+        while changed:
+            changed = False
+            for b in sorted(reach):
+                new = set()
+                for p_ in preds[b]:
+                    if p_ not in reach:
+                        continue
+                    new |= {(p_, last_in_block[p_])} if p_ in last_in_block else IN[p_]
+                if new != IN[b]:
+                    IN[b] = new
+                    changed = True
+        fresh = {}      # def -> fresh local
+
+        def fresh_for(d):
+            if d not in fresh:
+                f["locals"].append({"ty": "bool"})
+                fresh[d] = len(f["locals"]) - 1
+            return fresh[d]
+
+        def rewrite_operand(o, cur):
+            nonlocal n_new
+            if o.get("k") in ("copy", "move") and o["pl"]["l"] == l and not o["pl"]["p"] and len(cur) == 1:
+                o["pl"] = {"l": fresh_for(next(iter(cur))), "p": []}
+                o["k"] = "copy"
+                n_new += 1
+        for b in sorted(reach):
+            cur = set(IN[b])
+            for si, st in enumerate(blocks[b]["stmts"]):
+                for a in st["rv"].get("a", []):
+                    rewrite_operand(a, cur)
+                d = st["dst"]
+                if d is not None and not d["p"] and d["l"] == l:
+                    cur = {(b, si)}
+            t = blocks[b]["term"]
+            if t["k"] == "switch":
+                rewrite_operand(t["discr"], cur)
+            elif t["k"] == "call":
+                for a in t["args"]:
+                    rewrite_operand(a, cur)
+            elif t["k"] == "assert":
+                rewrite_operand(t["cond"], cur)
+        # the copies, inserted right after their definitions (highest statement index first keeps indices valid)
+        for (b, si), nl in sorted(fresh.items(), key=lambda kv: (kv[0][0], -kv[0][1])):
+            st = blocks[b]["stmts"][si]
+            blocks[b]["stmts"].insert(si + 1, {"dst": {"l": nl, "p": []}, "rv": copy.deepcopy(st["rv"]), "line": st.get("line", 0), "exp": st.get("exp", False)})
+    return n_new
